@@ -10,8 +10,8 @@ impl BearerCapabilities {
     const LENGTH: usize = 4;
 
     pub fn new(digital_access_supported: bool, analog_access_supported: bool) -> Self {
-        let da_bit = (digital_access_supported as u32) << 6;
-        let aa_bit = (analog_access_supported as u32) << 7;
+        let da_bit = (digital_access_supported as u32) << 7;
+        let aa_bit = (analog_access_supported as u32) << 6;
 
         Self {
             data: da_bit | aa_bit,
